@@ -1021,6 +1021,8 @@ def j_index(facts, roles, arity, b, bi, t, vecop=None, idxop=None):
     index handed in there against the length interval that holds there (`holds_at(items, 1)` under `len != 2`)."""
     vecop = vecop if vecop is not None else t["args"][0]
     idx = strip_refs(b.xtrace(idxop if idxop is not None else t["args"][1]))
+    if idx[0] == "agg" and (idx[1].get("adt") or "") == "std::ops::RangeFull":
+        return "J total: `v[..]` is the whole list (a full-range index cannot be out of bounds)"
     return _j_index_at(facts, arity, b, bi, vecop, idx, 0)
 
 
@@ -1172,6 +1174,13 @@ def refined_length(b, bi, view):
 def is_len_of_vec(arity, body, e):
     if (e[0] == "call" and e[1] and e[1]["path"] in ("std::vec::Vec::<T, A>::len", "core::slice::<impl [T]>::len")) or (e[0] == "unop" and e[1] == "PtrMetadata"):
         a = strip_refs(e[2][0] if e[0] == "call" else e[2])
+        # the whole list seen as a slice is the list: `items[..]`, `items.as_slice()`, `&**items`
+        for _ in range(4):
+            if a[0] == "call" and a[1] and a[2] and (a[1]["path"].endswith("Deref>::deref") or a[1]["path"].endswith("::as_slice")
+                                                   or (a[1]["path"].endswith("Index<I>>::index") and len(a[2]) == 2 and strip_refs(a[2][1])[0] == "agg" and (strip_refs(a[2][1])[1].get("adt") or "") == "std::ops::RangeFull")):
+                a = strip_refs(a[2][0])
+            else:
+                break
         root = body
         while root.kind == "closure" and root.key not in arity.vec_param:
             nb = body.facts.body(root.key.rsplit("::{closure#", 1)[0])
